@@ -383,3 +383,81 @@ _T = typing.TypeVar('_T')
 class GenericNT(typing.NamedTuple, typing.Generic[_T]):
   item: _T
   label: str = 'd_label'
+
+
+# --- additions driven by round-2 seeded changes --------------------------------
+def kwdef(a=None, *, scale=1.0, child=None):
+  """Keyword-only parameters with defaults."""
+  return record('kwdef', {'a': a, 'scale': scale, 'child': child})
+
+
+def po3(p0, p1='d_p1', p2='d_p2', /, a='d_a'):
+  """A required positional-only parameter followed by defaulted ones."""
+  return record('po3', {'p0': p0, 'p1': p1, 'p2': p2, 'a': a})
+
+
+def kwf(a=None, **kw):
+  return record('kwf', {'a': a}, (), kw)
+
+
+def kwg(a=None, **kw):
+  return record('kwg', {'a': a}, (), kw)
+
+
+class DataLoader(_VObj):
+  """Snake-cases to the same name as the function data_loader below."""
+
+  def __init__(self, x=None, child=None):
+    self.__vrec__ = record('DataLoader', {'x': x, 'child': child})
+
+
+def data_loader(x=None, child=None):
+  return record('data_loader', {'x': x, 'child': child})
+
+
+class Outer:
+
+  class Mode(enum.Enum):
+    FAST = 1
+    SLOW = 2
+
+
+class Mode(enum.Enum):
+  """Unrelated top-level enum with the same member names as Outer.Mode."""
+  FAST = 'top-fast'
+  SLOW = 'top-slow'
+
+
+def mutating(x=None, child=None):
+  """Modifies its container argument in place while being built."""
+  rec = record('mutating', {'x': x, 'child': list(child) if isinstance(child, list) else child})
+  if isinstance(child, list):
+    child.append('mutated-by-callee')
+  elif isinstance(child, dict):
+    child['mutated-by-callee'] = 1
+  return rec
+
+
+@dataclasses.dataclass(eq=True)
+class UCallA:
+  """Unhashable callable instance (eq=True dataclass)."""
+  k: int = 0
+
+  def __call__(self, x, y='d_y'):
+    return record('UCallA', {'k': self.k, 'x': x, 'y': y})
+
+
+@dataclasses.dataclass(eq=True)
+class UCallB:
+  k: int = 0
+
+  def __call__(self, p, q='d_q', *, r='d_r'):
+    return record('UCallB', {'k': self.k, 'p': p, 'q': q, 'r': r})
+
+
+@dataclasses.dataclass(eq=True)
+class UCallC:
+  k: int = 0
+
+  def __call__(self, x='d_x', *rest):
+    return record('UCallC', {'k': self.k, 'x': x}, rest)
